@@ -122,11 +122,13 @@ Fixpoint chunk_entries_while {A} (n : nat) (buf : list A) (cs : list (list A)) :
                           end
       end
   end.
-(* THE SWITCH: which variant describes /repo.  Pinned code: chunk_entries_if.  After fix-1: chunk_entries_while. *)
-Definition chunk_entries {A} (n : nat) (cs : list (list A)) : option (list (list A)) :=
+(* Which variant describes /repo: since the commit "fix: chunk_entries emits every full chunk ..." the code uses
+   `while`, so [chunk_entries] is the `while` variant; [chunk_entries_pinned] is the code at the pinned commit. *)
+Definition chunk_entries_pinned {A} (n : nat) (cs : list (list A)) : option (list (list A)) :=
   Some (chunk_entries_if n [] cs).
 Definition chunk_entries_fixed {A} (n : nat) (cs : list (list A)) : option (list (list A)) :=
   chunk_entries_while n [] cs.
+Definition chunk_entries {A} (n : nat) (cs : list (list A)) : option (list (list A)) := chunk_entries_fixed n cs.
 
 (* ---------- io/parser.py:chunk_lines ---------- *)
 (* inner `while n_lines_in_chunk >= remaining_lines` *)
